@@ -26,7 +26,7 @@ Definition vfield (p : pat) (i : nat) : option arg :=
   | PBinOp _ _ b, S O => Some b
   | PAnd a _, O => Some a
   | PAnd _ b, S O => Some b
-  | PArrayIndex _ index, O => Some index
+  | PArrayIndex _ index _, O => Some index
   | PDictKey _ key, O => Some key
   | PSequence _ repeats _ _, O => Some repeats
   | PSeries _ _ stp _ _, O => Some stp
@@ -53,7 +53,7 @@ Definition with_vfield (p : pat) (i : nat) (x : arg) : pat :=
   | PBinOp o a _, S O => PBinOp o a x
   | PAnd _ b, O => PAnd x b
   | PAnd a _, S O => PAnd a x
-  | PArrayIndex l _, O => PArrayIndex l x
+  | PArrayIndex l _ e, O => PArrayIndex l x e
   | PDictKey d _, O => PDictKey d x
   | PSequence s _ rc pos, O => PSequence s x rc pos
   | PSeries st v _ length c, O => PSeries st v x length c
